@@ -263,7 +263,9 @@ where
             // check for termination due to slow progress and update strategy
             if isdone{
                     match self.strategy_checkpoint_insufficient_progress(scaling){
-                        StrategyCheckpoint::NoUpdate | StrategyCheckpoint::Fail => {break}
+                        StrategyCheckpoint::NoUpdate => {break}
+                        // the previous iterate was restored, so report it in a final status line
+                        StrategyCheckpoint::Fail => {α = T::zero(); break}
                         StrategyCheckpoint::Update(s) => {scaling = s; continue}
                     }
             }  // allows continuation if new strategy provided
